@@ -345,6 +345,10 @@ func serverSideOfSharedCarriers(d *spec.Design, m *spec.Method, want any) {
 	}
 }
 
+// leaveDefaultedResultsUnset: set for the property that is about it (C03); the other properties return results whose
+// defaulted attributes are set, so that the recorded header/cookie defect does not stand in the way of what they judge
+var leaveDefaultedResultsUnset bool
+
 func genResult(t *verifsim.Tape, d *spec.Design, m *spec.Method, resp *spec.Response) any {
 	if m.Result == nil {
 		return nil
@@ -365,6 +369,11 @@ func genResult(t *verifsim.Tape, d *spec.Design, m *spec.Method, resp *spec.Resp
 		present := f.Required || f.HasDef || t.Draw("present", 100) < 60
 		if gen.MustBeSet(d, f) && !f.Required {
 			present = t.Draw("leave-minlen-collection-unset", 8) != 7
+		}
+		if leaveDefaultedResultsUnset && f.HasDef && !f.Required && t.Draw("leave-defaulted-result-attribute-unset", 4) == 0 {
+			// the SERVICE leaves a defaulted attribute unset (its Go field keeps the zero value): the caller of the
+			// client sees the declared default, wherever the attribute travels (C03's last clause)
+			present = false
 		}
 		if !present {
 			continue
@@ -448,6 +457,7 @@ func runExchange(t *verifsim.Tape, cfg engine.Config, prop string) *engine.Outco
 		ncfg = simnet.Config{Chunking: true, HeaderNoise: 250, RewriteRate: 500,
 			RewriteHeader: map[string][]string{"Goa-View": {"default", "tiny", "full", "extended", "nosuchview", ""}}}
 	}
+	leaveDefaultedResultsUnset = prop == "C03"
 	w := &world{d: d}
 	sys, err := gen.Assemble(name, t, ncfg, w.handler, w.auth, w.errHandler)
 	if err != nil {
@@ -814,7 +824,9 @@ func runExchange(t *verifsim.Tape, cfg engine.Config, prop string) *engine.Outco
 				if m.Result != nil {
 					got := gen.FromGo(d, reflect.ValueOf(res), m.Result.Type)
 					want := gen.Expected(d, result, m.Result)
-					if diff := gen.Diff(want, got, ""); diff != "" {
+					if diff := gen.Diff(want, got, ""); diff != "" && unsetDefaultedOutsideBody(d, m, resp, result, diff) {
+						o.Violate("result_delivery", "rdelivery:unset-defaulted-nonstring-in-header-or-cookie", "%s: %s\n  returned by service %s\n  seen by client      %s\n  headers %v", where, diff, gen.Show(result), gen.Show(got), ex.RespHeader)
+					} else if diff != "" {
 						o.Violate("result_delivery", "rdelivery:"+diffClass(d, m, diff)+":"+sig, "%s: result changed in transit: %s\n  returned by service %s\n  seen by client      %s\n  response body %q headers %v", where, diff, gen.Show(result), gen.Show(got), clipS(string(ex.RespBody)), ex.RespHeader)
 					}
 					for _, e := range CheckResponsePlacement(d, m, resp, result, ex.RespHeader, ex.RespBody) {
@@ -1107,6 +1119,33 @@ type unwrapper struct{ err error }
 func (u *unwrapper) Error() string { return "annotated: " + u.err.Error() }
 func (u *unwrapper) Unwrap() error { return u.err }
 
+// unsetDefaultedOutsideBody reports whether a delivery difference (or, with diff == "", any attribute of the result)
+// is the recorded defect: a result attribute with a declared default, of a non-string primitive kind, mapped to a
+// response header or cookie, that the service left unset. The server sends the zero value's text ("0", "false"), the
+// client takes it for a value: the default is lost, and when the attribute is validated the client refuses the response.
+func unsetDefaultedOutsideBody(d *spec.Design, m *spec.Method, resp *spec.Response, result any, diff string) bool {
+	if m.Result == nil || resp == nil {
+		return false
+	}
+	rt := d.Resolve(m.Result.Type)
+	obj, _ := result.(map[string]any)
+	if rt.Kind != spec.Object {
+		return false
+	}
+	top := strings.SplitN(strings.SplitN(strings.TrimPrefix(diff, "."), ":", 2)[0], ".", 2)[0]
+	for _, f := range rt.Fields {
+		_, inH := resp.Headers[f.Name]
+		_, inC := resp.Cookies[f.Name]
+		if !(inH || inC) || !f.HasDef || obj[f.Name] != nil || d.Resolve(f.Type).Kind == spec.String {
+			continue
+		}
+		if diff == "" || top == f.Name {
+			return true
+		}
+	}
+	return false
+}
+
 // classifyFailure names the cause class of a failed valid exchange from the
 // design and the values (the signature known findings are matched on).
 func classifyFailure(d *spec.Design, m *spec.Method, payload, result any, ex *simnet.Exchange, cerr error) string {
@@ -1137,6 +1176,9 @@ func classifyFailure(d *spec.Design, m *spec.Method, payload, result any, ex *si
 				}
 			}
 		}
+	}
+	if strings.Contains(msg, "invalid response") && ex.Status < 400 && unsetDefaultedOutsideBody(d, m, selectResponse(m, result), result, "") {
+		return "unset-defaulted-nonstring-in-header-or-cookie"
 	}
 	absentMinLen := func(a *spec.Attr, v any) bool {
 		if a == nil {
@@ -1194,7 +1236,7 @@ func classifyFailureAny(d *spec.Design, m *spec.Method, payload, result any, ex 
 	}
 	for _, e := range msgs {
 		c := classifyFailure(d, m, payload, result, ex, e)
-		if c == "path-param-contains-slash" || strings.HasPrefix(c, "optional-collection-with-min-length-left-unset") || c == "view:same-nested-type-under-two-views" || c == "view:nested-type-under-several-views-in-one-service" {
+		if c == "path-param-contains-slash" || strings.HasPrefix(c, "optional-collection-with-min-length-left-unset") || c == "view:same-nested-type-under-two-views" || c == "view:nested-type-under-several-views-in-one-service" || c == "unset-defaulted-nonstring-in-header-or-cookie" {
 			return c
 		}
 	}
